@@ -226,13 +226,15 @@ META = {
     "category": "proof",
     "text": ("Coq theorems over transliterated models of the arithmetic parser chain (parser_arithm.go, token level, plus the "
              "arithmetic lexer) and of expand.Arithm/atoi/binArit/assgnArit with explicit int64 wrap: parse(print_min e) = min_paren e "
-             "for every well-formed tree (the parser realises exactly the C/bash precedence and associativity table), atoi agrees with "
-             "bash's constant grammar, arithm = bash_arith (value, final environment, error) whenever bash's evaluation is defined "
-             "(no signed overflow, shift counts 0..63) and variables hold integer literals; refuted in general with the witness "
-             "x='1+2'; $((x)) (known finding); division/modulo by zero and negative exponents are errors in both; no panic on parser-"
-             "produced trees (after the fix for `++x++`). Model tied to the code on every run (parse tree, value, error kind, panic, "
-             "final environment, evaluated by vm_compute in the kernel); Spec tied to real bash through a big-integer reference "
-             "evaluator; interp vs bash 5.2 search over $(( )), (( )), let, subscripts and for (( ))."),
+             "for every well-formed tree (the parser realises exactly the C/bash precedence and associativity table); atoi agrees with "
+             "the declarative constant grammar (decimal, 0octal, 0x hex, base#digits 2..64, sign, blanks); C20_eval_matches: "
+             "in_scope e env -> arithm e env = bash_arith e env (value, final environment, error) by induction over expression trees, "
+             "in_scope = five decidable predicates (parser-producible, no a[i], valid constants, variables hold integer literals, "
+             "bash's result defined: no signed overflow, shift counts 0..63); refuted outside it with the witness x='1+2'; $((x)) "
+             "(known finding); division/modulo by zero and negative exponents are errors in both; no panic on parser-produced trees. "
+             "Model tied to the code on every run (parse tree, value, error kind, panic, final environment, evaluated by vm_compute in "
+             "the kernel, plus in_scope decided per case); Spec tied to real bash through a big-integer reference evaluator; interp vs "
+             "bash 5.2 search over $(( )), (( )), let, subscripts, a[i] reads and for (( )) with break/continue."),
     "note": ("Trusted: Coq kernel + vm_compute; hand-written models (tie = seeded differential testing); reference evaluator in the "
              "harness; overflow/shift-count cases dropped as the property says. Known findings: variable/let text not evaluated as an "
              "expression, invalid constants read as 0, $(( )) error leaves status 0, a[i]= inside arithmetic is lost. Fixed: ++x++ panicked."),
